@@ -34,6 +34,15 @@ func findFirstPartTrackOfLeadingTrack(parts []*fmp4.Part, leadingTrackID int) *f
 	return nil
 }
 
+func partsHaveTracks(parts []*fmp4.Part) bool {
+	for _, part := range parts {
+		if len(part.Tracks) != 0 {
+			return true
+		}
+	}
+	return false
+}
+
 func findTimeScaleOfLeadingTrack(tracks []*fmp4.InitTrack, leadingTrackID int) uint32 {
 	for _, track := range tracks {
 		if track.ID == leadingTrackID {
@@ -166,6 +175,15 @@ func (p *clientStreamProcessorFMP4) processSegment(ctx context.Context, seg *seg
 
 	leadingPartTrack := findFirstPartTrackOfLeadingTrack(parts, p.leadingTrackID)
 	if leadingPartTrack == nil {
+		// a segment or part without any track fragment carries no media.
+		// A muxer publishes one for a rendition that received no samples
+		// while the leading stream produced a part: skip it.
+		// The leading stream must provide the time reference first,
+		// since every other stream is waiting for it.
+		if !partsHaveTracks(parts) && (!p.isLeading || p.trackProcessors != nil) {
+			return nil
+		}
+
 		return fmt.Errorf("could not find data of leading track")
 	}
 
